@@ -561,6 +561,8 @@ def check(repo, rep, tier):
   c05.rule_data_unchanged(repo, rep)
   api.run_rule(repo, rep)
   rule_int_safe(repo, rep)
+  from . import c06b
+  c06b.rule_validation_table(repo, rep)
   # the indices are interpreted by the preprocessor of THIS fit: the wrapper
   # is rebuilt on every fit (typestate rule of C17, preprocessor_ only)
   from . import c17
